@@ -1,4 +1,4 @@
-import PilotaModel.Lemmas.PbUnknown
+import PilotaModel.Lemmas.PbGroup
 /-
   C05 — protobuf encode/decode round trip and encoded_len agreement.
   Property theorems only; helper lemmas live in `PilotaModel/Lemmas/Pb*.lean`.
@@ -112,6 +112,22 @@ theorem oneof_rt (s : Schema) (hs : WFSchema s = true) (flag : Bool) (i : Nat) (
     (hd : decls s i = [.oneof vs]) (v : Slot) (hm : HasType s flag i (.cons v .nil)) :
     decode s i (encode s flag i (.cons v .nil)) = .ok (.cons v .nil) :=
   decode_encode s flag hs i _ hm
+
+/-- the runtime's group codec (`group::encode / merge / encoded_len`; pilota-build emits no group
+fields, the functions are runtime API): the start key reads back as (tag, StartGroup), `group::merge`
+of the body into any value of the struct gives `mergeVal`, stops at the matching end-group key and
+leaves exactly the trailing bytes; `encoded_len` is the number of bytes written.  A group costs one
+level of the recursion budget. -/
+theorem group_rt (s : Schema) (hs : WFSchema s = true) (flag : Bool) (tag : Nat) (h1 : minTag ≤ tag) (h2 : tag ≤ maxTag)
+    (i : Nat) (x y : Slots) (ctx : Nat) (hy : okSlots s flag (decls s i) y = true) (hn : needSlots y + 1 ≤ ctx)
+    (hx : shapeSlots s (decls s i) x = true) (rest : Bytes) :
+    decodeKey (groupEncode s flag tag i y ++ rest)
+      = .ok ((tag, .sgroup), encSlots s flag (decls s i) y ++ (keyBytes tag .egroup ++ rest)) ∧
+    groupMerge s ctx tag .sgroup i x (encSlots s flag (decls s i) y ++ (keyBytes tag .egroup ++ rest)) = .ok (mergeVal s i x y, rest) ∧
+    groupEncodedLen s flag tag i y = (groupEncode s flag tag i y).length := by
+  refine ⟨?_, groupMerge_encode s flag hs tag h1 h2 i x y ctx hy hn hx rest, groupEncodedLen_eq s flag hs tag h1 h2 i y hy⟩
+  unfold groupEncode
+  rw [List.append_assoc, decodeKey_keyBytes tag .sgroup h1 h2, List.append_assoc]
 
 /-! ### known finding PB2: negative zero as a map value, feature off
 
